@@ -706,7 +706,7 @@ pub fn plan(tier: Tier, focus: &str) -> CrashPlan {
 	let base = OptSet::base("L2");
 	if focus == "C11" {
 		let maxlen = if tier == Tier::Quick { 3 } else { 5 };
-		let mut opts = vec![OptSet::base("L2-vlog8-64").with_vlog(8, 64)];
+		let mut opts = vec![OptSet::base("L2-vlog8-64-cache0").with_vlog(8, 64).cache(0)];
 		if tier == Tier::Thorough {
 			opts.push(OptSet::base("L2-versioned-index-vlog64").versioned(0, true).with_vlog(0, 64));
 		}
